@@ -44,8 +44,9 @@ class Mod(tokcursor.CursorMod):
     def _on_consume(self, mod, I, st, k, role, sp):
         if not self.structure:
             return st
-        if st.mon.get("need_field"):
-            self.report("L-structure/field", "a well-formed field name was consumed but no Field was recorded before the next token", "", sp)
+        if st.mon.get("need_field") and role in ("key-first", "key-next"):
+            # the field may be recorded any time before the next field starts (its value may be collected first)
+            self.report("L-structure/field", "a well-formed field name was consumed but no Field was recorded before the next field name", "", sp)
             st = st.setmon("need_field", False)
         if st.mon.get("need_value"):
             self.report("L-structure/value", "a value line of a well-formed field was consumed but its text was not added to the field's value", "", sp)
@@ -56,7 +57,7 @@ class Mod(tokcursor.CursorMod):
                 self.report("L-structure/paragraph", "first field after a blank line joins the previous paragraph", "", sp)
             if role == "key-next" and fp == 0:
                 self.report("L-structure/paragraph", "a following field of the same paragraph starts a new paragraph", "", sp)
-            st = st.setmon("need_field", True)
+            st = st.setmon("need_field", True).setmon("collected", False)
         elif role == "value":
             if st.mon.get("v_early"):
                 st = st.setmon("v_early", False)
@@ -86,9 +87,16 @@ class Mod(tokcursor.CursorMod):
                     s2 = s2.setmon("need_field", False).setmon("fields_in_para", 1)
                     nm = dict(item[2]).get("name")
                     nm = I.deref_val(s2, nm) if nm else None
+                    val = dict(item[2]).get("value")
+                    val = I.deref_val(s2, val) if val else None
+                    if self.structure and s2.mon.get("collected") and not (val is not None and val[0] == "abs" and val[1] == "lstr" and val[2] not in ("start", "junk")):
+                        self.report("L-structure/value", "value text was collected for this field, but the Field is recorded with another value", str(val)[:60], sp)
                     if self.structure and nm != ("abs", "toktext", "KEY"):
                         self.report("L-structure/field-name", "the recorded field name is not the text of the KEY token", str(nm)[:60], sp)
                 elif item[0] == "struct" and item[1] == PARA:
+                    if self.structure and s2.mon.get("need_field"):
+                        self.report("L-structure/field", "a paragraph is closed while a consumed field name has not been recorded as a Field", "", sp)
+                        s2 = s2.setmon("need_field", False)
                     if self.structure and s2.mon.get("fields_in_para", 0) == 0:
                         self.report("L-structure/paragraph", "an empty paragraph is recorded", "", sp)
                     s2 = s2.setmon("fields_in_para", 0).setmon("paras", "pos")
@@ -173,6 +181,7 @@ class Mod(tokcursor.CursorMod):
         if ev == "V":
             if state in ("afterV",) and self.structure:
                 self.report("L-structure/value", "two value lines are concatenated without a newline between them", "", sp)
+            s2 = s2.setmon("collected", True)
             if add[1] == "toktext-peek":
                 s2 = s2.setmon("v_early", True)
             else:
@@ -185,8 +194,9 @@ class Mod(tokcursor.CursorMod):
         return "junk", s2
 
     def on_assign(self, I, n, place, v, st, old=None):
-        # `<field>.value = t.to_string()`
-        if place and place[-1] == "value":
+        # `<field>.value = t.to_string()`, or the same on a local String the value is collected in
+        is_valuebuf = bool(place) and (place[-1] == "value" or (old is not None and old[0] == "abs" and old[1] == "lstr"))
+        if is_valuebuf:
             v = I.deref_val(st, v)
             if v[0] == "abs" and v[1] in ("toktext", "toktext-peek"):
                 old = None
@@ -195,7 +205,7 @@ class Mod(tokcursor.CursorMod):
                     # assignment replaces whatever was there: only legal on an empty value
                     if self.structure and old is not None and old[0] == "abs" and old[1] == "lstr" and old[2] != "start":
                         self.report("L-structure/value", "a value line overwrites earlier value text of the same field", "", sp)
-                    st2 = I.write(st, place, lstr("afterV"))
+                    st2 = I.write(st, place, lstr("afterV")).setmon("collected", True)
                     st2 = st2.setmon("need_value", False) if v[1] == "toktext" else st2.setmon("v_early", True)
                     prev = st.mon.get("assigned_in_field")
                     return st2
